@@ -212,13 +212,8 @@ pub fn format(it: &mut Interp, p: &Program, a: &Args) -> LResult<Vec<u8>> {
                         out.extend_from_slice(n.to_string().as_bytes());
                     }
                 }
-                Value::Flt(x) => {
-                    if x.floor() == *x && x.is_finite() && x.abs() < 1e15 {
-                        // "%a" of an integral float; written as hex float by real Lua
-                        return unsupported("string.format('%q') with a float argument");
-                    }
-                    return unsupported("string.format('%q') with a float argument");
-                }
+                // real Lua writes floats as hexadecimal floats ("%a")
+                Value::Flt(_) => return unsupported("string.format('%q') with a float argument"),
                 Value::Nil | Value::Bool(_) => {
                     out.extend_from_slice(&Interp::tostring_basic(arg(a, argi)));
                 }
